@@ -10,6 +10,11 @@ written from the property statement.  Besides the selected/ordered `_uid` sequen
     before the run still holds after it;
   * seed-determinism for Shuffle / Riffle / Reservoir: a fresh instance and the re-used instance give the same
     sequence again.
+The interactions of one environment do not all have to be assembled the same way: in about half of the environments
+some (or all) interactions carry the very same items in a different key insertion order (a second code path, a log
+read back with another field order, dict.update, a filter that pops and re-adds a key), and some environments hold
+plain dicts.  Nothing in the statement lets a filter depend on that, so all oracles apply unchanged; a failure that
+disappears when the same interactions are assembled the ordinary way is reported as `<filter>/input=mixed-key-order/mode=...`.
 Adversarial seeds are computed by inverting coba's LCG so that the uniform 0.0 / the largest uniform lands on
 each draw that Shuffle, Riffle and Reservoir's Algorithm L consume.
 
@@ -21,11 +26,14 @@ another (a filter object or cache shared by the pipelines) shows up as `sibling-
 or a seed that no longer reproduces the answer of a fresh filter.
 """
 from collections import Counter
+import random as _random
 
 ID    = "C09"
 LEVEL = "exploration"
 RULE  = ("one case = one generated environment (length 0..60; simulated/logged/grounded; None/scalar/dense/tuple/"
-         "sparse contexts; list/DiscreteReward/BinaryReward rewards; unique _uid per interaction) x one filter "
+         "sparse contexts; list/DiscreteReward/BinaryReward rewards; unique _uid per interaction; all interactions with "
+         "the constructor's key order / some assembled in one other key order / each in its own key order; Interaction "
+         "subclasses or plain dicts) x one filter "
          "configuration (Shuffle, Riffle, Sort, Take, Slice, Reservoir, Where, Cache, Chunk, Params, Identity, "
          "Batch+Unbatch) run through every access path (pipes class, environments.filters class, Environments "
          "shortcut raw + finalized) and two input forms (list / one-shot iterator); distinct & non-trivial = "
@@ -40,7 +48,9 @@ FILTERS = ["Shuffle", "Riffle", "Sort", "Take", "Slice", "Reservoir", "Where", "
 REQUIRED = [f"oracle.{f}" for f in FILTERS] + [
     "oracle.content-preserved", "oracle.input-snapshot", "oracle.determinism", "oracle.seed.adversarial",
     "oracle.Reservoir.algorithm-L-entered", "reach.Reservoir.all-initial-members-replaced", "oracle.Where.drop", "oracle.Where.pass", "oracle.Sort.ties",
-    "via.pipes", "via.envf", "via.shortcut", "via.shortcut-finalized", "input.list", "input.iter"] + \
+    "via.pipes", "via.envf", "via.shortcut", "via.shortcut-finalized", "input.list", "input.iter",
+    "input.key-order.mixed", "input.plain-dicts", "oracle.BatchUnbatch.batched.mixed-key-order", "collection.mixed-key-order"] + \
+    [f"oracle.{f}.mixed-key-order" for f in FILTERS] + \
     [f"oracle.collection.{f}" for f in FILTERS] + [
     "collection.first-read", "collection.after-sibling", "collection.re-read", "collection.interleaved",
     "collection.round.partial", "collection.raw", "collection.finalized", "collection.mixed-schema"]
@@ -48,7 +58,9 @@ ASSUMPTIONS = [
     "which permutation / which sample a seed yields is not asserted, only that it is a permutation (resp. min(n,N) distinct members) of the input and reproducible; seed=None is excluded",
     "Sort: keys exist in every dense context; sparse contexts take 0 for an absent key; sparse contexts without keys, and scalar contexts, only have to come out as a permutation (order unspecified); sort-key columns hold one orderable type; None/scalar contexts are sorted without keys only",
     "Where: the feature count of an environment is asserted only when every context has the same number of features (None = 0, scalar number = 1); n_actions only on interactions that carry 'actions'; an empty environment yields nothing whatever the bounds",
-    "every interaction of one environment has the same key set and the same value kinds (coba decides per environment from its first interaction)",
+    "every interaction of one environment has the same key set and the same value kinds (coba decides per environment from its first interaction); "
+    "the ORDER in which an interaction's keys were inserted, and whether it is an Interaction subclass or a plain dict, is not content: "
+    "interactions of one environment may differ in it ('the only assumption made by Coba is that interactions are a dict') and every filter must still do what the statement says",
     "content equality is type-strict on values (list vs tuple, int vs float) but ignores the dict subclass of the interaction and its key order (Cache copies, Batch+Unbatch rebuild the dict)",
     "legal parameters only: counts/start/stop >= 0 or None, step >= 1, spacing >= 0, batch size >= 0 or None, integer seeds >= 0 for Shuffle, int/float seeds for Riffle and Reservoir",
     "Reservoir inputs are at most 60 long, so float-rounding corners of Algorithm L that need > 10^7 items are out of reach",
@@ -76,6 +88,12 @@ def gen_len(rng):
 
 _SCHEMA_KEYS = ("kind", "ctx", "rwd", "akind", "const_actions", "has_actions", "has_prob", "has_tag", "d", "coltypes",
                 "skeys", "uniform_sparse", "scalar_type", "na_const")
+# how the interactions of one environment were assembled (not part of their content: interactions are dicts, and two
+# dicts with the same items are the same interaction whatever order the items were inserted in):
+#   korder  same = every interaction has its keys in the constructor's order;
+#           some = a second "code path" assembles some of the interactions with the same keys in ONE other order;
+#           each = every interaction has its own key insertion order
+#   plain   the interactions are plain dicts instead of coba's Interaction subclasses
 
 def gen_env(rng, like=None, n=None, uid_base=100):
     """one environment spec.  like = an earlier spec whose schema (interaction kind, context kind, column types, ...)
@@ -99,6 +117,9 @@ def gen_env(rng, like=None, n=None, uid_base=100):
         sc["uniform_sparse"] = rng.random() < .5
         sc["scalar_type"] = rng.choice(["int", "float", "str"])
         sc["na_const"] = rng.randint(1, 4)
+        sc["korder"] = rng.choice(["same", "same", "same", "some", "some", "each"])
+        sc["plain"] = rng.random() < .15
+    korder = sc.get("korder", "same"); alt_order = rng.randrange(1, 10**6); p_alt = rng.choice([.15, .35, .5, .85])
     kind, ctx, rwd, akind, const_actions, has_actions, has_prob, has_tag, d, coltypes, skeys, uniform_sparse, scalar_type, na_const = (sc[k] for k in _SCHEMA_KEYS)
     def val(t):
         if t == "int":   return rng.randint(0, 2)
@@ -129,6 +150,8 @@ def gen_env(rng, like=None, n=None, uid_base=100):
             row["la"] = rng.choice(acts); row["lr"] = rng.choice([0, 1, 0.5])
             if has_prob: row["lp"] = rng.choice([0.25, 0.5, 1.0])
         if has_tag: row["tag"] = rng.choice(["p", "q"])
+        if korder == "some" and rng.random() < p_alt: row["ko"] = alt_order
+        if korder == "each": row["ko"] = rng.randrange(1, 10**6)
         rows.append(row)
     return {"kind": kind, "ctx": ctx, "rwd": rwd, "akind": akind, "d": d, "coltypes": coltypes, "skeys": skeys,
             "has_actions": has_actions, "rows": rows, "schema": sc}
@@ -289,7 +312,67 @@ def build_env(env):
         else:
             if acts is not None: extra["actions"] = acts
             out.append(LoggedInteraction(ctx, _dec_action(row["la"]), row["lr"], row.get("lp"), **extra))
+        if "ko" in row:                 # the same items, inserted in another order
+            it = out[-1]
+            keys = list(it)
+            for k in _random.Random(row["ko"]).sample(keys, len(keys)): it[k] = it.pop(k)
+        if env.get("schema", {}).get("plain"): out[-1] = dict(out[-1])
     return out
+
+def _mixed_order(base):
+    """do the interactions of this built environment differ in key insertion order?"""
+    return len(base) >= 2 and any(list(i) != list(base[0]) for i in base[1:])
+
+def _plain_assembly(env, keep=()):
+    """the same environment spec assembled the ordinary way (constructor key order, Interaction subclasses);
+    keep: the unusual features to retain ("mixed-key-order", "plain-dicts")"""
+    sc = dict(env.get("schema", {}))
+    rows = env["rows"]
+    if "mixed-key-order" not in keep:
+        sc["korder"] = "same"; rows = [{k: v for k, v in r.items() if k != "ko"} for r in rows]
+    if "plain-dicts" not in keep: sc["plain"] = False
+    return dict(env, schema=sc, rows=rows)
+
+def _assembly_features(env):
+    t = []
+    if any("ko" in r for r in env["rows"]): t.append("mixed-key-order")
+    if env.get("schema", {}).get("plain"):  t.append("plain-dicts")
+    return t
+
+def _attribute_assembly(envs, rerun):
+    """mechanism minimisation for failures on unusually assembled interactions.  rerun(envs') -> set of signatures of the
+    same case on other environment specs.  Returns attribute(sig, env) -> None when the failure also happens with the
+    interactions assembled the ordinary way, else the smallest set of unusual features that reproduces it ('a+b')."""
+    feats = sorted({t for e in envs for t in _assembly_features(e)})
+    if not feats: return lambda sig, env: None
+    memo = {}
+    def sigs(keep):
+        if keep not in memo:
+            try:    memo[keep] = rerun([_plain_assembly(e, keep) for e in envs])
+            except Exception: memo[keep] = None
+        return memo[keep]
+    def attribute(sig, env):
+        own = _assembly_features(env)
+        if not own: return None
+        base = sigs(())
+        if base is None or sig in base: return None
+        if len(feats) > 1:
+            for t in own:
+                one = sigs((t,))
+                if one is not None and sig in one: return t
+        return "+".join(own)
+    return attribute
+
+def _assembly_sig(sig, tag, marker=""):
+    """a failure that needs unusually assembled interactions: the trigger is the assembly, not the parameter class /
+    access path / position of the read, and whatever follows from mis-filed values (foreign items, exceptions further
+    down the pipeline) is the same mechanism -> filter / input feature / failure mode"""
+    parts = sig.split("/")
+    mode = next((p_ for p_ in parts if p_.startswith("mode=")), "mode=?")
+    return parts[0] + marker + f"/input={tag}/{mode}"
+
+def _special_assembly(env):
+    return bool(env.get("schema", {}).get("plain")) or any("ko" in r for r in env["rows"])
 
 # ===================================================================================== canonical content
 def _cv(v):
@@ -654,6 +737,9 @@ def check_case(spec, ctx=None):
                 fail(via, f"raise:{type(e).__name__}", f"{via}: {type(e).__name__}: {e}", _where_tag(reason))
                 break
             note(f"via.{via}"); note(f"input.{f['input']}")
+            mixed_order = _mixed_order(base)
+            if mixed_order: note("input.key-order.mixed")
+            if env.get("schema", {}).get("plain") and N: note("input.plain-dicts")
             # ---- inputs untouched
             note("oracle.input-snapshot")
             after = {}                 # id(input object) -> its canonical form after the run
@@ -679,6 +765,8 @@ def check_case(spec, ctx=None):
             if bad: break
             # ---- the promised selection / order
             note(f"oracle.{name}")
+            if mixed_order: note(f"oracle.{name}.mixed-key-order")
+            if name == "BatchUnbatch" and mixed_order and f["size"]: note("oracle.BatchUnbatch.batched.mixed-key-order")
             if f.get("seedclass") in ("u0", "umax"): note("oracle.seed.adversarial")
             if name == "Reservoir" and kind == "subset" and N > k:
                 note("oracle.Reservoir.algorithm-L-entered")
@@ -717,6 +805,11 @@ def check_case(spec, ctx=None):
     plain = None
     if fails and f.get("seedclass", "plain") != "plain" and not spec.get("_noshrink"):
         plain = {s_ for s_, _ in check_case({"env": env, "filter": dict(f, seed=1, seedclass="plain", role=None), "_noshrink": True})}
+    # ... and a failure that does not happen when the very same interactions are assembled the ordinary way (constructor
+    # key order, Interaction subclasses) is about how the interactions were assembled
+    attribute = None
+    if fails and _special_assembly(env) and not spec.get("_noshrink") and not spec.get("_noassembly"):
+        attribute = _attribute_assembly([env], lambda es: {s_ for s_, _ in check_case({"env": es[0], "filter": f, "_noassembly": True})})
     all_vias = vias_run
     for sig, per_via in fails.items():
         vs = sorted(per_via)
@@ -725,8 +818,11 @@ def check_case(spec, ctx=None):
         if plain is not None:
             stripped = "/".join(p_ for p_ in full.split("/") if not p_.startswith("seed="))
             if stripped in plain: full = stripped
+        tag = attribute(full, env) if attribute else None
+        if tag: full = _assembly_sig(full, tag)
         out.append((full, "; ".join(per_via[v] for v in vs)[:1500]))
-    return out
+    seen = set()
+    return [x for x in out if not (x[0] in seen or seen.add(x[0]))]
 
 # ===================================================================================== collections of environments
 def check_collection(spec, ctx=None):
@@ -774,13 +870,17 @@ def check_collection(spec, ctx=None):
 
     def finish():
         if ctx: ctx.case(key_now, nontrivial=nontrivial)
+        # mechanism minimisation: a failure that is gone when the same interactions are assembled the ordinary way
+        attribute = None
+        if fails and any(_special_assembly(e) for e in envs) and not spec.get("_alone") and not spec.get("_noassembly"):
+            attribute = _attribute_assembly(envs, lambda es: {s_ for s_, _ in check_collection(dict(spec, envs=es, _noassembly=True))})
         # mechanism minimisation: an environment that is fine when it is the ONLY member of the collection (same reads)
         # fails because of its siblings -- then the position of the failing read is not part of the mechanism
         alone_ok = {}
         if fails and not spec.get("_alone") and len(envs) > 1:
             for j in {k_[0] for k_ in fails if k_[0] is not None}:
                 ns = len(seeds)
-                solo = dict(spec, envs=[envs[j]], _alone=True,
+                solo = dict(spec, envs=[envs[j]], _alone=True, _noassembly=True,
                             rounds=[dict(r, perm=[i % ns for i in r["perm"] if i // ns == j]) for r in rounds])
                 try:    alone_ok[j] = not check_collection(solo)
                 except Exception: alone_ok[j] = False
@@ -788,6 +888,8 @@ def check_collection(spec, ctx=None):
         for (j, pc, when, tag, mode), what in fails.items():
             if alone_ok.get(j): when = "only-with-siblings"
             sig = name + (f"/{pc}" if pc else "") + "/collection" + (f"/{when}" if when else "") + (f"/{tag}" if tag else "") + f"/mode={mode}"
+            tag = attribute(sig, envs[j]) if attribute and j is not None else None
+            if tag: sig = _assembly_sig(sig, tag, "/collection")
             out.setdefault(sig, what[:1500])
         return list(out.items())
 
@@ -810,6 +912,7 @@ def check_collection(spec, ctx=None):
         fail(None, "build", f"raise:{type(e).__name__}", f"{type(e).__name__}: {e}")
         return finish()
     note("collection.finalized" if finalized else "collection.raw")
+    if any(_mixed_order(b) for b in bases): note("collection.mixed-key-order")
     if spec.get("mixed"): note("collection.mixed-schema")
     is_fin = {k: any(isinstance(x, BatchSafe) and isinstance(x._filter, Finalize) for x in p) for k, p in table.items()}
 
